@@ -329,7 +329,13 @@ class DataFrameSchemaBackend(PolarsSchemaBackend):
         # Append missing columns
         check_obj = check_obj.with_columns(
             **{k: v.default for k, v in missing_cols_schema.items()}
-        ).cast({k: v.dtype.type for k, v in missing_cols_schema.items()})
+        ).cast(
+            {
+                k: v.dtype.type
+                for k, v in missing_cols_schema.items()
+                if v.dtype is not None
+            }
+        )
 
         # Set column order
         check_obj = check_obj.select([*schema.columns])
@@ -463,7 +469,9 @@ class DataFrameSchemaBackend(PolarsSchemaBackend):
                     ):
                         continue
 
-                    if schema.coerce or col_schema.coerce:
+                    if (
+                        schema.coerce or col_schema.coerce
+                    ) and col_schema.dtype is not None:
                         obj = getattr(col_schema.dtype, coerce_fn)(
                             PolarsData(obj, col_schema.selector)
                         )
